@@ -731,6 +731,46 @@ pub fn generate(name: &str, count: usize, rng: &mut Rng, sink: &mut dyn FnMut(Se
                 sink(Session { sid: format!("v1len-{}", i), tag: json!({"g": "v1len"}), chunks });
             }
         }
+        // VALID TCP6 lines of an exact total length 98..=107 (address spellings chosen to hit it:
+        // full-width groups, the 45-byte dotted-quad form on either side, 1-5 digit ports),
+        // delivered one byte at a time, sometimes followed by a trailer
+        "v1max" => {
+            let wide = |rng: &mut Rng, v4tail: bool| -> String {
+                let digits = |rng: &mut Rng, w: usize| -> String {
+                    (0..w).map(|i| if i == 0 { *rng.pick(b"123456789abcdefABCDEF") as char } else { *rng.pick(b"0123456789abcdefABCDEF") as char }).collect()
+                };
+                let n = if v4tail { 6 } else { 8 };
+                let mut parts: Vec<String> = (0..n).map(|_| { let w = *rng.pick(&[4usize, 4, 4, 4, 3, 2, 1]); digits(rng, w) }).collect();
+                if v4tail {
+                    let q: Vec<String> = (0..4).map(|_| format!("{}", rng.pick(&[255u8, 200, 199, 100, 99, 10, 9, 0]))).collect();
+                    parts.push(q.join("."));
+                }
+                parts.join(":")
+            };
+            let mut i = 0;
+            let mut tries = 0;
+            while i < count && tries < count * 4000 {
+                tries += 1;
+                let target = 98 + (i % 10);
+                let shape = rng.below(4);
+                let src = wide(rng, shape == 0 || shape == 2);
+                let dst = wide(rng, shape == 1 || shape == 2);
+                let port = |rng: &mut Rng| -> String { match rng.below(5) { 0 => "65535".to_string(), 1 => format!("{}", 10000 + rng.below(55536)), 2 => format!("{}", 1000 + rng.below(9000)), 3 => format!("{}", rng.below(1000)), _ => format!("{}", rng.below(10)) } };
+                let line = format!("PROXY TCP6 {} {} {} {}\r\n", src, dst, port(rng), port(rng));
+                if line.len() != target {
+                    continue;
+                }
+                let mut bytes = line.into_bytes();
+                match rng.below(4) {
+                    0 => bytes.extend_from_slice(b"GET / HTTP/1.1\r\n"),
+                    1 => bytes.extend_from_slice(b"\r\n"),
+                    _ => {}
+                }
+                let chunks = split_each(&bytes);
+                sink(Session { sid: format!("v1max-{}", i), tag: json!({"g": "v1max", "len": target}), chunks });
+                i += 1;
+            }
+        }
         // arbitrary bytes over small alphabets, incl. multi-byte characters next to CR
         "v1junk" => {
             let pieces: [&[u8]; 14] = [b"P", b"PROXY", b" ", b"\r", b"\n", "\u{e9}".as_bytes(), "\u{20ac}".as_bytes(), "\u{1F600}".as_bytes(), b"UNKNOWN", b"TCP4", b"1", b"\xff", b"\x00", b"::"];
